@@ -22,6 +22,29 @@ type gen struct {
 	n   int
 	vis []gref // groupings visible from the module being generated
 	idb string // identity base of the module being generated, with its prefix ("" before the first module)
+	// byRef: the groupings behind the references a body may use (to tell whether two of them can be used side by side)
+	byRef map[string]*sg.Grouping
+}
+
+// sideBySide: neither grouping reaches the other or a third one both reach (their nodes would appear twice)
+func (x *gen) sideBySide(r1, r2 string) bool {
+	g1, g2 := x.byRef[r1], x.byRef[r2]
+	if g1 == nil || g2 == nil || g1 == g2 {
+		return false
+	}
+	all := map[string]*sg.Grouping{}
+	for _, gr := range x.byRef {
+		all[gr.Name] = gr
+	}
+	a, b := map[string]bool{g1.Name: true}, map[string]bool{g2.Name: true}
+	usesReach(g1.Kids, all, a)
+	usesReach(g2.Kids, all, b)
+	for n := range a {
+		if b[n] {
+			return false
+		}
+	}
+	return true
 }
 
 func (x *gen) id(p string) string { x.n++; return fmt.Sprintf("%s%d", p, x.n) }
@@ -120,6 +143,7 @@ func (x *gen) body(depth int, gs []string, usesAllowed bool) []*sg.Node {
 	n := 1 + g.Pick(3, "nbody")
 	var out []*sg.Node
 	used := false
+	usedRef := ""
 	for i := 0; i < n; i++ {
 		k := g.Pick(7, "bkind")
 		if depth <= 0 && k >= 2 && k != 6 {
@@ -163,7 +187,17 @@ func (x *gen) body(depth int, gs []string, usesAllowed bool) []*sg.Node {
 		default:
 			if usesAllowed && len(gs) > 0 && !used {
 				used = true
-				out = append(out, &sg.Node{Kind: "uses", Name: gs[g.Pick(len(gs), "gref")]})
+				usedRef = gs[g.Pick(len(gs), "gref")]
+				out = append(out, &sg.Node{Kind: "uses", Name: usedRef})
+				if r2 := gs[g.Pick(len(gs), "grefnext")]; g.Chance(1, 2, "seconduses") && x.sideBySide(usedRef, r2) {
+					// ... directly followed by another one (of a grouping that shares nothing with the first)
+					out = append(out, &sg.Node{Kind: "uses", Name: r2})
+					usedRef = ""
+				}
+			} else if r2 := gs[g.Pick(max(len(gs), 1), "gref2")%max(len(gs), 1):]; usesAllowed && used && len(r2) > 0 && x.sideBySide(usedRef, r2[0]) {
+				// a second uses next to the first (of a grouping that shares nothing with it)
+				out = append(out, &sg.Node{Kind: "uses", Name: r2[0]})
+				usedRef = "" // two are enough
 			} else {
 				out = append(out, x.leaf(x.id("lf")))
 			}
@@ -482,6 +516,10 @@ func genCase(t *rapid.T) Case {
 			for _, v := range vis {
 				refs = append(refs, v.ref)
 			}
+			x.byRef = map[string]*sg.Grouping{}
+			for _, v := range vis {
+				x.byRef[v.ref] = v.gr
+			}
 			gr.Kids = x.body(2, refs, g.Chance(2, 3, "nesteduses"))
 			// some nodes of the body depend on the module's "fshared" (unprefixed: the grouping's module)
 			for _, k := range gr.Kids {
@@ -522,6 +560,10 @@ func genCase(t *rapid.T) Case {
 			vis = append(vis, gref{m.Prefix + ":" + gr.Name, gr})
 		}
 		x.vis = append([]gref(nil), vis...)
+		x.byRef = map[string]*sg.Grouping{}
+		for _, v := range vis {
+			x.byRef[v.ref] = v.gr
+		}
 		// a grouping of the same local name in every module, each one extending the one it imports ("uses m0:gshared"
 		// inside "grouping gshared"): the prefix decides which grouping is meant, there is no cycle
 		if g.Chance(1, 2, "gshared") {
@@ -677,6 +719,14 @@ func genCase(t *rapid.T) Case {
 				m.Groupings = keep
 			}
 		}
+		// the order of definitions means nothing: written last-first, every uses of a grouping of the module stands before
+		// the definition it refers to
+		if g.Chance(1, 2, "reversegroupings") {
+			for a, b := 0, len(m.Groupings)-1; a < b; a, b = a+1, b-1 {
+				m.Groupings[a], m.Groupings[b] = m.Groupings[b], m.Groupings[a]
+			}
+		}
+		m.DefsLast = g.Chance(1, 2, "defslast")
 		mods = append(mods, m)
 		visible = append(visible, vis)
 	}
